@@ -201,7 +201,7 @@ def run_case(case):
     xg = cards.grid(5, 4, x_min=1e-3)
     x = xg[3]
     pts = [dict(x=x, Q2=p["Q2"]) for p in case["points"]]
-    ob = cards.observables({"F2_light": pts}, xgrid=xg, deg=2, prDIS=proc, ProjectileDIS=proj)
+    ob = cards.observables({"F2_light": pts, **({"F2_total": pts} if mode == "beta0" else {})}, xgrid=xg, deg=2, prDIS=proc, ProjectileDIS=proj)
     log, undo = _probe()
     try:
         out = run.run(th, ob)
@@ -255,6 +255,18 @@ def run_case(case):
             compared += t1.size
             if m > 1:
                 viol.append(dict(sig=f"nf-beta0-tensor|{th['FNS']}", what=f"(2,0,1,0) != -beta0(nf={ref})*(1,0,0,0): max dev {d:.3g}"))
+            # the same identity row by row on <kind>_total: massive-quark (intrinsic) rows are governed by the scheme's nf as well
+            rt = out["F2_total"][case["points"].index(p)]
+            a1, a2 = np.asarray(rt.orders[(1, 0, 0, 0)][0]), np.asarray(rt.orders[(2, 0, 1, 0)][0])
+            for ir, pid in enumerate(cards.PIDS):
+                if run.absmax(a1[ir]) == 0:
+                    continue
+                mr, dr = run.cmp(a2[ir], -nfref.beta0(ref) * a1[ir], run.absmax(a1[ir]) * nfref.beta0(ref), 1e-11)
+                compared += a1[ir].size
+                if mr > 1:
+                    j_ = int(np.argmax(np.abs(a1[ir])))
+                    viol.append(dict(sig=f"nf-beta0-row|{th['FNS']}|{'heavy' if abs(pid) > ref and pid != 21 else 'light'}", what=f"F2_total {th['FNS']} NfFF={th['NfFF']} Q2={p['Q2']:.5g}: row pid={pid}: (2,0,1,0)/(1,0,0,0) = {-a2[ir][j_]/a1[ir][j_]:.6f}, beta0(nf={ref}) = {nfref.beta0(ref):.6f}"))
+                    break
     if mode == "meta":
         # second ZM card with other masses / ratios but the same count at every requested Q2
         th2 = dict(th)
